@@ -367,6 +367,53 @@ func (g treeGen) scalar() any {
 	return g.pick("v", "", "a b", "x=y", 1, 0, -3, true, false, nil, 1.5, "é", "[::1]", "1.2.3.4,5.6.7.8", "[ab]", "[]")
 }
 
+// hostsInput: a list-syntax or mapping-syntax extra_hosts value over IPv6-ish addresses, bare / bracketed / half-bracketed
+func (g treeGen) hostsInput() any {
+	r := g.ctx.Rng
+	hosts := []string{"h1", "h2.example", "h-3", "h1"}
+	addr := func() string {
+		ip := g.pick("::1", "fe80::1", "2001:db8::2", "1.2.3.4", "::ffff:10.1.2.3", "a", "").(string)
+		switch r.Intn(8) {
+		case 0, 1, 2:
+			g.ctx.Count("decode-hosts:bracketed")
+			return "[" + ip + "]" // "[]" and "[a]" sit on both sides of the len > 2 bound
+		case 3:
+			return "[" + ip
+		case 4:
+			return ip + "]"
+		}
+		return ip
+	}
+	n := 1 + r.Intn(3)
+	if r.Intn(2) == 0 {
+		g.ctx.Count("decode-hosts:list")
+		l := []any{}
+		for ; n > 0; n-- {
+			as := []string{addr()}
+			for r.Intn(3) == 0 {
+				as = append(as, addr())
+			}
+			l = append(l, hosts[r.Intn(len(hosts))]+g.pick("=", "=", ":").(string)+strings.Join(as, ","))
+		}
+		return l
+	}
+	g.ctx.Count("decode-hosts:mapping")
+	m := map[string]any{}
+	for ; n > 0; n-- {
+		if r.Intn(2) == 0 {
+			m[hosts[r.Intn(len(hosts))]] = addr()
+		} else {
+			g.ctx.Count("decode-hosts:mapping-list-valued")
+			as := []any{addr()}
+			for r.Intn(2) == 0 {
+				as = append(as, addr())
+			}
+			m[hosts[r.Intn(len(hosts))]] = as
+		}
+	}
+	return m
+}
+
 func (g treeGen) decodeInput(typ string) any {
 	r := g.ctx.Rng
 	keys := []string{"A", "b", "k.1", "host", "x-y", "K", ""}
@@ -396,6 +443,11 @@ func (g treeGen) decodeInput(typ string) any {
 		return g.pick("all", "ALL", "All", "3", "-1", "+7", "", "x", "1e3", " 1", 0, 5, -1, true, nil, 1.5, []any{}, "9223372036854775807", "9223372036854775808", "-9223372036854775808", "-9223372036854775809", "0x10", "1_0")
 	case "UlimitsConfig":
 		return g.pick(5, 0, -1, map[string]any{"soft": 1, "hard": 2}, map[string]any{"soft": 1}, map[string]any{}, map[string]any{"soft": "1"}, map[string]any{"hard": nil}, "5", nil, []any{1}, map[string]any{"soft": 3, "hard": 3, "x": 1})
+	}
+	// round 7: extra_hosts spellings with IPv6 / bracketed addresses (the `len(ip) > 2 && ip[0] == '[' && ip[len-1] == ']'`
+	// rule of cleanup() on both decode paths, several addresses per host, both separators, list-valued mapping entries)
+	if typ == "HostsList" && r.Intn(3) == 0 {
+		return g.hostsInput()
 	}
 	// mapping types
 	switch r.Intn(7) {
@@ -520,6 +572,13 @@ func (g pairGen) kvs(allowNull bool) []kv {
 	return l
 }
 
+// count: a distribution counter of the generator (not counted when the pairs are diverted to a sink)
+func (g pairGen) count(k string) {
+	if g.sink == nil && !g.xkeys {
+		g.ctx.Count(k)
+	}
+}
+
 func (g pairGen) emit(attr string, short, long map[string]any) {
 	if g.sink != nil {
 		g.sink(attr, short, long)
@@ -625,8 +684,8 @@ func (g pairGen) otherDoc(attr string, long map[string]any) map[string]any {
 		k := ks[r.Intn(len(ks))]
 		var nv any = "ov"
 		switch path {
-		case "extra_hosts":
-			nv = "9.9.9.9"
+		case "extra_hosts", "build.extra_hosts":
+			nv = []any{"9.9.9.9", "[fe80::9]", "::9"}[r.Intn(3)]
 		case "build.ssh":
 			nv = "/other"
 		}
@@ -828,29 +887,61 @@ func (g pairGen) one(i int) {
 			k := []string{"volumes", "networks"}[r.Intn(2)]
 			g.emit("kv:"+k+".labels", doc(map[string]any{}, map[string]any{k: map[string]any{"r": map[string]any{"labels": kvListForm(l)}}}), doc(map[string]any{}, map[string]any{k: map[string]any{"r": map[string]any{"labels": kvMapForm(l)}}}))
 		}
-	case 19: // extra_hosts
+	case 19: // extra_hosts / build.extra_hosts
+		// round 7: one to three addresses per host, IPv4 or IPv6, each written bare or in brackets — independently in
+		// the list spelling and in the mapping spelling ("[::1]" and "::1" denote the same address: cleanup() strips
+		// the brackets on both decode paths); several addresses as `h=a,b`, as repeated `h=a`, `h=b` entries, or as a
+		// list-valued mapping entry; the legacy `host:ip` separator with IPv6 addresses too (only the first colon cuts)
 		hosts := []string{"h1", "h2.example", "h-3"}
-		ips := []string{"1.2.3.4", "::1", "fe80::1", "10.0.0.1"}
+		ips := []string{"1.2.3.4", "::1", "fe80::1", "10.0.0.1", "2001:db8::2", "::ffff:10.1.2.3"}
+		br := func(ip string) string {
+			if r.Intn(3) == 0 {
+				g.count("hosts:bracketed")
+				return "[" + ip + "]"
+			}
+			return ip
+		}
 		var l []any
 		m := map[string]any{}
 		for _, h := range hosts[:1+r.Intn(3)] {
-			ip := ips[r.Intn(len(ips))]
+			n := 1
+			if r.Intn(3) == 0 {
+				n = 2 + r.Intn(2)
+				g.count("hosts:multi-address")
+			}
 			sep := "="
-			if r.Intn(3) == 0 && !strings.Contains(ip, ":") {
+			if r.Intn(3) == 0 {
 				sep = ":"
 			}
-			if r.Intn(4) == 0 {
-				l = append(l, h+sep+"["+ip+"]")
-			} else {
-				l = append(l, h+sep+ip)
+			var ls []string
+			var ms []any
+			for _, j := range r.Perm(len(ips))[:n] { // distinct addresses: a repeated address is a duplicate item once the mapping is rendered as a list
+				ip := ips[j]
+				if strings.Contains(ip, ":") {
+					g.count("hosts:ipv6")
+				}
+				ls = append(ls, br(ip))
+				ms = append(ms, br(ip))
 			}
-			if r.Intn(2) == 0 {
-				m[h] = ip
+			if len(ls) > 1 && r.Intn(2) == 0 {
+				for _, a := range ls { // repeated entries of one host accumulate
+					l = append(l, h+sep+a)
+				}
 			} else {
-				m[h] = []any{ip}
+				l = append(l, h+sep+strings.Join(ls, ","))
+			}
+			if len(ms) == 1 && r.Intn(2) == 0 {
+				m[h] = ms[0]
+			} else {
+				g.count("hosts:list-valued-entry")
+				m[h] = ms
 			}
 		}
-		g.emit("kv:extra_hosts", doc(svcWith("extra_hosts", l), nil), doc(svcWith("extra_hosts", m), nil))
+		if r.Intn(3) == 0 {
+			g.emit("kv:build.extra_hosts", doc(svcWith("build", map[string]any{"context": ".", "extra_hosts": l}), nil), doc(svcWith("build", map[string]any{"context": ".", "extra_hosts": m}), nil))
+		} else {
+			g.emit("kv:extra_hosts", doc(svcWith("extra_hosts", l), nil), doc(svcWith("extra_hosts", m), nil))
+		}
 	case 20: // build.additional_contexts / build.ssh
 		if r.Intn(2) == 0 {
 			g.emit("kv:build.additional_contexts", doc(svcWith("build", map[string]any{"context": ".", "additional_contexts": []any{"a=./x", "b=docker-image://i=j"}}), nil),
